@@ -3,7 +3,7 @@ from .ks_instr import UV, instrument, instrumented_overlay, replace_env
 from .props import HDR, standard
 
 KS = "services/keepstore"
-FILES = ["ks/zz_verif_ks_common_test.go", "ks/zz_verif_ks_hook_test.go", "C02/zz_verif_c02_test.go"]
+FILES = ["ks/zz_verif_ks_common_test.go", "ks/zz_verif_ks_hook_test.go", "ks/zz_verif_ks_overlap_test.go", "C02/zz_verif_c02_test.go"]
 HDR2 = HDR.format(imports="model.C02_model model.C02_run") + "Local Open Scope N_scope.\n"
 
 
